@@ -287,6 +287,46 @@ fn run_decoders(ctx: &mut Ctx, lit: &[u8], pre: usize, post: usize, label: &str)
             }
         }
     }
+    // the literal as a leaf found by the path walkers (skip-only decoders of their own): get,
+    // get_many and, for well-formed literals, the unchecked ones, on a slice and on shared input
+    if token_ok {
+        let mut doc = b"{\"a\":[0,".to_vec();
+        doc.extend_from_slice(lit);
+        doc.extend_from_slice(b"],\"z\":1}");
+        let path = sonic_rs::pointer!["a", 1];
+        let mut tree = sonic_rs::PointerTree::new();
+        tree.add_path(&path);
+        tree.add_path(&sonic_rs::pointer!["z"]);
+        let fsd = std::str::from_utf8(&doc).ok().map(faststr::FastStr::new);
+        let grab = |r: sonic_rs::Result<Vec<Option<LazyValue>>>| -> Got {
+            match r {
+                Ok(v) => match v.into_iter().next().flatten() {
+                    Some(lv) => match lv.as_str() {
+                        Some(s) => Got::Str(s.to_string(), None),
+                        None => Got::NoStr,
+                    },
+                    None => Got::NoStr,
+                },
+                Err(e) => es(e),
+            }
+        };
+        ctx.ops(3);
+        verdict(ctx, "get_many leaf.as_str", grab(sonic_rs::get_many(&doc[..], &tree)), &strict, true, false);
+        if let Some(f) = &fsd {
+            verdict(ctx, "get_many(&FastStr) leaf.as_str", grab(sonic_rs::get_many(f, &tree)), &strict, true, false);
+        }
+        if skip_ok && strict.is_some() {
+            verdict(ctx, "get_many_unchecked leaf.as_str", grab(unsafe { sonic_rs::get_many_unchecked(&doc[..], &tree) }), &strict, true, false);
+            let g = match unsafe { sonic_rs::get_unchecked(&doc[..], &path) } {
+                Ok(lv) => match lv.as_str() {
+                    Some(s) => Got::Str(s.to_string(), None),
+                    None => Got::NoStr,
+                },
+                Err(e) => es(e),
+            };
+            verdict(ctx, "get_unchecked leaf.as_str", g, &strict, true, false);
+        }
+    }
     // key from the lazy object iterator
     let mut it = sonic_rs::to_object_iter(&keyd[..]);
     let g = match it.next() {
